@@ -65,3 +65,7 @@ let parse_rows (s : string) : Store.store =
           { Store.id = n_of_string i; prev = (if p = "-1" then n_of_string "999999999" else n_of_string p); height = z_of_string h;
             work = z_of_hex w; cum = z_of_hex c; orph = (st = "O"); st = st_of_letter st; pl = dummy_pl }
         | _ -> failwith ("bad row " ^ r)) (split_on ',' s))
+
+(* "x=sparse" histories: labels and tip are recorded at the sampled steps only (same rule as SparseSampled in c01.go) *)
+let is_sparse (h : hist) = Stdlib.List.mem "sparse" h.extras
+let sparse_sampled i n = i >= n - 3 || (i + 1) mod 97 = 0
